@@ -77,6 +77,26 @@ Theorem C02_shrink_exact_class : forall routes dc cur crt na exp dc' rm,
                  else exists c', aget k (d_susp dc') = Some c' /\ i_res c' = inter (i_res c) (c_res crt) /\ i_limit c' = i_limit c).
 Proof. exact shrink_exact_class. Qed.
 
+(** ** Unsuspension *)
+
+(** When a suspended child comes back, every issued certificate is either one that was issued before, untouched,
+    or the re-issue of a suspended one: what that held, intersected with the issuing certificate and narrowed
+    by its limit - and within the child's entitlement of that moment. *)
+Theorem C02_unsuspend_within_entitlement : forall ent now exp keys dc dc' rm,
+  cl_unsuspend dc ent keys now exp = Some (dc', rm) ->
+  forall k c', aget k (d_issued dc') = Some c' ->
+    aget k (d_issued dc) = Some c'
+    \/ (exists s sg, aget k (d_susp dc) = Some s /\ cur_res dc = Some sg
+                     /\ issue_cert sg (i_res s) (i_limit s) = Some (i_res c')
+                     /\ subset (i_res s) ent = true /\ subset (i_res c') ent = true).
+Proof. exact unsuspend_within_entitlement. Qed.
+
+(** A suspended certificate is dropped only if it exceeds the entitlement or is about to expire. *)
+Theorem C02_unsuspend_removes_only_unfit : forall ent now exp keys dc dc' rm,
+  cl_unsuspend dc ent keys now exp = Some (dc', rm) ->
+  forall k, In k rm -> exists s, aget k (d_susp dc) = Some s /\ ((now + 86400 <? i_exp s)%Z && subset (i_res s) ent) = false.
+Proof. exact unsuspend_removes_only_unfit. Qed.
+
 (** ** Finding F02a (known): a certificate issued under a request limit cannot be shrunk when the shrink
     touches a limited family. Full statement, refutation, strongest true restriction. *)
 Theorem C02_shrink_total_refuted : ~ shrink_total_full.
@@ -216,6 +236,8 @@ Print Assumptions C02_never_overclaims.
 Print Assumptions C02_shrink_same_command.
 Print Assumptions C02_shrink_exact.
 Print Assumptions C02_shrink_exact_class.
+Print Assumptions C02_unsuspend_within_entitlement.
+Print Assumptions C02_unsuspend_removes_only_unfit.
 Print Assumptions C02_shrink_total_refuted.
 Print Assumptions C02_shrink_total_except_limit.
 Print Assumptions C02_received_total_refuted.
